@@ -205,6 +205,29 @@ theorem readNodes_none_iff {bf : Nat} (hbf : BfOk bf) {data : List Nat} :
           intro hc; have := ih.mpr hc; simp [h2] at this
         rw [Nat.add_mul]; omega
 
+theorem readNodes_lt {bf : Nat} (hbf : BfOk bf) {data : List Nat} (hbytes : ∀ b ∈ data, b < 256) :
+    ∀ (n : Nat) {st st' : BitIn} {vs : List Nat},
+      readNodes bf data n st = some (vs, st') → ∀ v ∈ vs, v < 2 ^ bf
+  | 0, st, st', vs, h => by
+    simp [readNodes] at h
+    obtain ⟨rfl, rfl⟩ := h
+    simp
+  | n + 1, st, st', vs, h => by
+    simp only [readNodes] at h
+    split at h
+    · simp at h
+    · rename_i v st1 h1
+      split at h
+      · simp at h
+      · rename_i vs' st2 h2
+        simp at h
+        obtain ⟨rfl, rfl⟩ := h
+        intro w hw
+        simp only [List.mem_cons] at hw
+        rcases hw with rfl | hw
+        · exact nextNode_lt hbf hbytes h1
+        · exact readNodes_lt hbf hbytes n h2 w hw
+
 /-! ### skipNodes -/
 
 theorem skipNodes_spec {bf : Nat} (hbf : BfOk bf) (len : Nat) {st : BitIn} (hst : StOk bf st)
